@@ -17,7 +17,7 @@ from vmon.libutil import load_definition, monitored
 LEVEL = "exploration"
 SHARDS = {"quick": 16, "thorough": 16}
 KINDS = ("integer", "float", "enumerated", "boolean", "string", "binary", "abstime", "reltime")
-MUST = ["datasets", "cells.compared", "mode.raw", "mode.derived", "files.multi", "files.truncated_tail_before_next_file", "packets.with_spare_bytes", "kwargs.skip_header_bytes", "definition.form.str-path", "definition.form.Path", "apids.multi", "polymorphic.rejected", "polymorphic.superset", "exotic_encodings.datasets", "reordered_fields.datasets", "manyrows.datasets", "files.form.generator", "files.form.iter", "files.form.tuple"] + [f"cells.{k}" for k in KINDS]
+MUST = ["datasets", "cells.compared", "mode.raw", "mode.derived", "files.multi", "files.truncated_tail_before_next_file", "packets.with_spare_bytes", "kwargs.skip_header_bytes", "kwargs.parse_bad_pkts_false", "definition.form.str-path", "definition.form.Path", "apids.multi", "polymorphic.rejected", "polymorphic.superset", "exotic_encodings.datasets", "reordered_fields.datasets", "manyrows.datasets", "files.form.generator", "files.form.iter", "files.form.tuple"] + [f"cells.{k}" for k in KINDS]
 RULE = ("case = (flat definition: abstract root + one concrete child container per APID, each with a fixed list of "
         "parameters of random kinds/encodings; packet files: 1-3 files (30% of them ending in a truncated packet, which is no "
         "packet of the stream; sometimes with foreign prefix bytes skipped through the skip_header_bytes keyword), the definition as object / str path / Path, the files handed over as path / list / tuple / generator / iterator / map / Path list, 1-4 APIDs interleaved, values at encoding extremes "
@@ -138,6 +138,9 @@ def run(ctx):
             if rng.random() < 0.25:
                 gkw["buffer_read_size_bytes"] = rng.choice([1, 7, 4096])
                 ctx.count("kwargs.buffer_read_size_bytes")
+            if rng.random() < 0.3:
+                gkw["parse_bad_pkts"] = False       # packets with spare bytes are then withheld by the generator: no rows for them, in any file
+                ctx.count("kwargs.parse_bad_pkts_false")
             # the definition may be handed over as an object or as the path (str / Path) of its XTCE file
             defn_form = rng.choice(["object", "object", "str-path", "Path"])
             ctx.count(f"definition.form.{defn_form}")
@@ -174,7 +177,7 @@ def run(ctx):
                 continue    # a decoding error would (legitimately) escape create_dataset
             rows = {}
             for r, o in zip(stream_packets, outs):
-                if o.status == "ok":
+                if o.status == "ok" and (gkw.get("parse_bad_pkts", True) or o.consumption == "exact"):
                     rows.setdefault(int.from_bytes(r[:2], "big") & 0x7FF, []).append(o)
             if nfiles > 1:
                 ctx.count("files.multi")
